@@ -3,6 +3,7 @@ package rules
 import (
 	"fmt"
 	"go/types"
+	"sort"
 	"strings"
 
 	"verif/internal/load"
@@ -763,6 +764,158 @@ func runTEnum(c *load.Ctx, r *report.RuleResult) {
 			if matched == 0 {
 				r.Unk(key, pos2, "no path for this valuation")
 			}
+		}
+	}
+}
+
+func init() {
+	register(&Rule{ID: "T-chkarray", Min: 4, Run: runTChkArray,
+		Doc: "the schema checker applies each item-count rule of an example array on its own: checkArrayNode, interpreted for every presence combination of minItems and maxItems, gives the example's own length to exactly the rules that are present (a lone minItems or a lone maxItems is checked too)"})
+}
+
+func runTChkArray(c *load.Ctx, r *report.RuleResult) {
+	e := newAbsNodeEnv(c)
+	fn := c.Func(pkgChecker, "checkSchema.checkArrayNode")
+	arrT := namedType(c, pkgSchema, "ArrayNode")
+	lenFn := c.Func(pkgSchema, "ArrayNode.Len")
+	baseC := c.Func(pkgSchema, "baseNode.Constraint")
+	if e.problem != "" || fn == nil || arrT == nil || lenFn == nil || baseC == nil {
+		r.Unk("anchor|checker.checkArrayNode", "", "checkArrayNode / ArrayNode.Len / baseNode.Constraint not found "+e.problem)
+		return
+	}
+	pos := c.Pos(fn.Pos())
+	e.cfg.Intrinsics[lenFn.String()] = func(in *pe.Interp, args []pe.Value) (pe.Value, bool) {
+		return pe.NewSym("len(example)", lenFn.Signature.Results().At(0).Type()), true
+	}
+	e.cfg.Intrinsics[baseC.String()] = e.cfg.Intrinsics["invoke:"+types.TypeString(e.nodeT, nil)+".Constraint"]
+	rules := []string{}
+	for _, ci := range e.byVal {
+		if ci.named == nil {
+			continue
+		}
+		if f := c.Func(pkgConstraint, ci.named.Obj().Name()+".ValidateTheArray"); f != nil {
+			name := ci.named.Obj().Name()
+			rules = append(rules, name)
+			e.cfg.Intrinsics[f.String()] = func(in *pe.Interp, args []pe.Value) (pe.Value, bool) {
+				in.Effect("count-rule " + name + "(" + strings.Trim(pe.Show(args[1]), "‹›") + ")")
+				return nil, true
+			}
+		}
+	}
+	sort.Strings(rules)
+	if len(rules) < 2 {
+		r.Unk("anchor|item-count rules", pos, "fewer than two constraint types have ValidateTheArray")
+		return
+	}
+	outs := pe.ExploreFn(e.cfg, func(in *pe.Interp) pe.Value {
+		node := &pe.Iface{T: types.NewPointer(arrT), V: pe.NewSym("arrayNode", types.NewPointer(arrT))}
+		args := []pe.Value{}
+		for i, p := range fn.Params {
+			if i == 0 && fn.Signature.Recv() != nil {
+				args = append(args, pe.NewSym("recv", p.Type()))
+				continue
+			}
+			args = append(args, node)
+		}
+		return in.Call(fn, args)
+	})
+	for _, o := range outs {
+		val := o.ChoiceMap()
+		key := "chkarray|" + o.Valuation()
+		if o.Undecided != "" || o.Panicked {
+			r.Unk(key, pos, "not interpretable: "+o.Exit())
+			continue
+		}
+		var problems []string
+		for _, name := range rules {
+			present := val["has("+name+"ConstraintType)"] == "true"
+			want := "count-rule " + name + "(len(example))"
+			n := 0
+			for _, ef := range o.Effects {
+				if strings.HasPrefix(ef, "count-rule "+name+"(") {
+					n++
+					if ef != want {
+						problems = append(problems, name+" is given "+ef+", not the example's own length")
+					}
+				}
+			}
+			switch {
+			case present && n == 0:
+				problems = append(problems, "the "+name+" rule of the node is not applied to the example")
+			case present && n > 1:
+				problems = append(problems, name+" applied more than once")
+			case !present && n > 0:
+				problems = append(problems, name+" applied although absent")
+			}
+		}
+		if len(problems) > 0 {
+			r.Bad(key, pos, strings.Join(problems, "; ")+fmt.Sprintf(" (effects %v)", o.Effects))
+		} else {
+			r.OK(key, pos, fmt.Sprintf("effects %v", o.Effects))
+		}
+	}
+}
+
+func init() {
+	register(&Rule{ID: "T-orlist", Min: 2, Run: runTOrList,
+		Doc: "the or / type-shortcut list records every alternative as written: TypesList.AddNameWithASTNode, interpreted on a list that already holds a name, appends exactly one entry to the names and one AST item — whether the new name is a repeat of an earlier one or not (the AST must list the alternatives exactly as written)"})
+}
+
+func runTOrList(c *load.Ctx, r *report.RuleResult) {
+	tl := namedType(c, pkgConstraint, "TypesList")
+	add := c.Func(pkgConstraint, "TypesList.AddNameWithASTNode")
+	if tl == nil || add == nil {
+		r.Unk("anchor|constraint.TypesList.AddNameWithASTNode", "", "not found")
+		return
+	}
+	st, _ := tl.Underlying().(*types.Struct)
+	pos := c.Pos(add.Pos())
+	cfg := newPEConfig(c)
+	for _, tc := range []struct{ name, newName string }{{"repeat", "@cat"}, {"new", "@dog"}} {
+		var final *pe.Ptr
+		outs := pe.ExploreFn(cfg, func(in *pe.Interp) pe.Value {
+			obj := in.NewStruct(tl, "typesList")
+			final = obj
+			for i := 0; i < st.NumFields(); i++ {
+				f := st.Field(i)
+				sl, ok := f.Type().Underlying().(*types.Slice)
+				if !ok {
+					continue
+				}
+				var first pe.Value = pe.NewSym("ast0", sl.Elem())
+				if b, ok := sl.Elem().Underlying().(*types.Basic); ok && b.Kind() == types.String {
+					first = "@cat"
+				}
+				in.Store(in.FieldPtr(obj, f.Name()), in.MakeSliceOf([]pe.Value{first}, 4))
+			}
+			an := pe.NewSym("ast1", add.Params[3].Type())
+			return in.Call(add, []pe.Value{obj, tc.newName, "typ", an})
+		})
+		key := "orlist|" + tc.name
+		if len(outs) != 1 || outs[0].Undecided != "" || outs[0].Panicked {
+			why := fmt.Sprintf("%d paths", len(outs))
+			if len(outs) > 0 {
+				why = outs[0].Exit()
+			}
+			r.Unk(key, pos, "AddNameWithASTNode not interpretable to one path: "+why)
+			continue
+		}
+		sv := final.Obj.Val.(*pe.StructV)
+		var problems []string
+		for i := 0; i < st.NumFields(); i++ {
+			f := st.Field(i)
+			if _, ok := f.Type().Underlying().(*types.Slice); !ok {
+				continue
+			}
+			elems, ok := pe.SliceElems(sv.F[i])
+			if !ok || len(elems) != 2 {
+				problems = append(problems, fmt.Sprintf("%s has %d entries after adding to a list of one", f.Name(), len(elems)))
+			}
+		}
+		if len(problems) > 0 {
+			r.Bad(key, pos, strings.Join(problems, "; ")+": an alternative written in the schema is missing from the rule (and from the AST)")
+		} else {
+			r.OK(key, pos, "every list grows by exactly one entry")
 		}
 	}
 }
